@@ -338,5 +338,6 @@ CHECKS["C18"] = {
     "assumptions": ["between two gates a goroutine runs atomically"],
     "units": [
         {"name": "api", "pkg": "pkg/api", "test": "TestVerifC18api", "gomaxprocs": 1},
+        {"name": "mutex", "pkg": "pkg/cluster", "test": "TestVerifC18mutex", "workers": 8, "pre_cmd": ["bin/c18_traces", "{tier}", "{out}"]},
     ],
 }
